@@ -721,6 +721,17 @@ class Function(dd._abc.Operator):
             ) -> int:
         return self.node
 
+    def __copy__(
+            self
+            ) -> 'Function':
+        """Return new reference to the same node.
+
+        The copy increments the reference count
+        of the node, because deleting the copy
+        decrements this reference count.
+        """
+        return Function(self.node, self.bdd)
+
     def to_expr(
             self
             ) -> _Formula:
